@@ -1418,3 +1418,250 @@ func ruleDeletionMarkPersisted(r *Run) {
 	}
 	r.check(n >= 2, "datastore:background-deletions", fmt.Sprintf("%d", n), "fewer than confirmed by reading: rule needs review", "-")
 }
+
+// ---------------------------------------------------------------------------------------------
+// C18 round e.
+
+func init() {
+	register(ruleDef{ID: "R18.13", Prop: "C18", Tier: "quick", Floor: 2,
+		Title: "block runs of the coarse sparse volume stay on their row: in IZYXSlice.WriteSerializedRLEs the increment of the current run's length is reached only with the y and the z of the run's start tested equal to the next block's",
+		Fn:    ruleCoarseRunSameRow})
+	register(ruleDef{ID: "R18.14", Prop: "C18", Tier: "quick", Floor: 2,
+		Title: "a comparator named for an axis order compares in that order: in dvid, the Less method of a sort helper whose type name ends in ZYX looks at component 2 first, then 1, then 0",
+		Fn:    ruleZYXComparatorOrder})
+	register(ruleDef{ID: "R18.15", Prop: "C18", Tier: "quick", Floor: 2,
+		Title: "block bounds are applied at the scale they are given in: in labels.Index.GetProcessedBlockIndices the block list handed to FitToBounds is the down-sampled one whenever a scale is requested (bounds arrive in blocks of the requested scale)",
+		Fn:    ruleBoundsAfterDownres})
+}
+
+func ruleCoarseRunSameRow(r *Run) {
+	w := r.W
+	f := w.method("dvid", "IZYXSlice", "WriteSerializedRLEs")
+	if f == nil {
+		r.undecided("dvid.IZYXSlice.WriteSerializedRLEs", "anchor not found")
+		return
+	}
+	n := 0
+	for _, b := range f.Blocks {
+		for _, in := range b.Instrs {
+			bo, ok := in.(*ssa.BinOp)
+			if !ok || bo.Op != token.ADD {
+				continue
+			}
+			if k, isK := constInt(bo.Y); !isK || k != 1 {
+				continue
+			}
+			// the run length: a phi of the loop that this increment feeds, and that is written out
+			phi, isPhi := bo.X.(*ssa.Phi)
+			if !isPhi || phi.Type().String() != "int32" {
+				continue
+			}
+			n++
+			y, z := axisEqualAt(f, 1, bo), axisEqualAt(f, 2, bo)
+			r.check(y && z, fmt.Sprintf("WriteSerializedRLEs:run-extended#%d:same-y-and-z", n), "the extension is reached only with equal y and equal z",
+				fmt.Sprintf("a block run is extended by the next block without both row coordinates being tested equal (y tested: %v, z tested: %v): the last block of one slice and the first of the next fuse into one run, which claims blocks of the wrong slice and omits the real ones", y, z), w.pos(bo.Pos()))
+		}
+	}
+	r.check(n >= 1, "WriteSerializedRLEs:run-extensions", fmt.Sprintf("%d", n), "the run extension was not found: rule needs review", w.fpos(f))
+}
+
+func ruleZYXComparatorOrder(r *Run) {
+	w := r.W
+	n := 0
+	for _, f := range w.RepoFuncs {
+		if relPkg(pkgPathOf(f)) != "dvid" || len(f.Blocks) == 0 || f.Name() != "Less" || f.Signature.Recv() == nil || strings.HasSuffix(w.fposFile(f), "_test.go") {
+			continue
+		}
+		rt := f.Signature.Recv().Type().String()
+		if !strings.HasSuffix(rt, "ZYX") {
+			continue
+		}
+		// order of first use of each constant component index, in block order
+		var order []int64
+		seen := map[int64]bool{}
+		for _, b := range f.Blocks {
+			for _, in := range b.Instrs {
+				var idx ssa.Value
+				switch x := in.(type) {
+				case *ssa.IndexAddr:
+					if strings.Contains(x.X.Type().String(), "Point") {
+						idx = x.Index
+					}
+				case *ssa.Index:
+					if strings.Contains(x.X.Type().String(), "Point") {
+						idx = x.Index
+					}
+				}
+				if idx == nil {
+					continue
+				}
+				if k, ok := constInt(idx); ok && !seen[k] {
+					seen[k] = true
+					order = append(order, k)
+				}
+			}
+		}
+		if len(order) < 3 {
+			continue
+		}
+		n++
+		r.check(order[0] == 2 && order[1] == 1 && order[2] == 0, fname(f)+":component-order", "z, then y, then x",
+			fmt.Sprintf("the comparator of %s looks at the components in the order %v: points sorted with it are not in Z-Y-X order, and the span scans that rely on that order (ROI point queries walk the sorted points and the spans together) answer false for points that are inside", rt, order), w.fpos(f))
+	}
+	r.check(n >= 1, "dvid:zyx-comparators", fmt.Sprintf("%d", n), "none found: rule needs review", "-")
+}
+
+func ruleBoundsAfterDownres(r *Run) {
+	w := r.W
+	f := w.method("datatype/common/labels", "Index", "GetProcessedBlockIndices")
+	if f == nil {
+		r.undecided("labels.Index.GetProcessedBlockIndices", "anchor not found")
+		return
+	}
+	var down, fit ssa.CallInstruction
+	for _, c := range calls(f) {
+		switch methodNameOf(c) {
+		case "Downres":
+			down = c
+		case "FitToBounds":
+			fit = c
+		}
+	}
+	if !r.check(down != nil && fit != nil, "GetProcessedBlockIndices:steps", "down-sampling and bounding found", "Downres or FitToBounds not found: rule needs review", w.fpos(f)) {
+		return
+	}
+	dv, _ := down.(*ssa.Call)
+	ok := false
+	if dv != nil && len(fit.Common().Args) > 0 {
+		for d := range dataDeps(fit.Common().Args[0]) {
+			if d == ssa.Value(dv) {
+				ok = true
+			}
+		}
+	}
+	// and nothing bounded is down-sampled afterwards
+	if fv, isCall := fit.(*ssa.Call); isCall && len(down.Common().Args) > 0 && dataDeps(down.Common().Args[0])[fv] {
+		ok = false
+	}
+	r.check(ok, "GetProcessedBlockIndices:bounds-after-downres", "the bounded list is the down-sampled one",
+		"the block bounds are applied to the level-0 block list and the survivors are down-sampled afterwards: bounds are given in blocks of the requested scale, so a sparse volume requested at scale > 0 with bounds loses blocks that lie inside the bounds (or keeps ones outside)", w.pos(fit.Pos()))
+}
+
+func init() {
+	register(ruleDef{ID: "R9.11", Prop: "C09", Tier: "quick", Floor: 2,
+		Title: "a scan that steps before it tests is entered only with a non-empty interval: in the labels package, where the x scan of a run-length writer leaves on `vx > upper[0]` after its body, the function tests lower[0] against upper[0] before the scan (bounds can empty the interval)",
+		Fn:    ruleDoWhileScanGuarded})
+}
+
+func ruleDoWhileScanGuarded(r *Run) {
+	w := r.W
+	n := 0
+	for _, f := range w.RepoFuncs {
+		if relPkg(pkgPathOf(f)) != "datatype/common/labels" || len(f.Blocks) == 0 || strings.HasSuffix(w.fposFile(f), "_test.go") {
+			continue
+		}
+		isComp0 := func(v ssa.Value) (string, bool) {
+			ld, ok := stripConv(v).(*ssa.UnOp)
+			if !ok || ld.Op != token.MUL {
+				return "", false
+			}
+			ia, ok := ld.X.(*ssa.IndexAddr)
+			if !ok || !strings.HasSuffix(ia.X.Type().String(), "dvid.Point3d") {
+				return "", false
+			}
+			if k, isK := constInt(ia.Index); !isK || k != 0 {
+				return "", false
+			}
+			return coordKey(ld), true
+		}
+		for _, b := range f.Blocks {
+			ifi, ok := b.Instrs[len(b.Instrs)-1].(*ssa.If)
+			if !ok {
+				continue
+			}
+			bo, ok := ifi.Cond.(*ssa.BinOp)
+			if !ok || bo.Op != token.GTR {
+				continue
+			}
+			upper, isUpper := isComp0(bo.Y)
+			if !isUpper {
+				continue
+			}
+			// the compared value is the scan variable advanced in this iteration: x_next = phi + step
+			add, ok := stripConv(bo.X).(*ssa.BinOp)
+			if !ok || add.Op != token.ADD {
+				continue
+			}
+			phi, ok := add.X.(*ssa.Phi)
+			if !ok {
+				continue
+			}
+			// do-while: the test sits in the loop body after the work, the phi's block does not test it
+			lower := ""
+			for _, e := range phi.Edges {
+				if k, isL := isComp0(e); isL {
+					lower = k
+				}
+			}
+			if lower == "" {
+				continue
+			}
+			n++
+			// the tests of lower[0] against upper[0]
+			isGuard := func(x ssa.Instruction) bool {
+				if2, ok := x.(*ssa.If)
+				if !ok {
+					return false
+				}
+				c2, ok := if2.Cond.(*ssa.BinOp)
+				if !ok {
+					return false
+				}
+				switch c2.Op {
+				case token.GTR, token.LSS, token.GEQ, token.LEQ:
+					kx, okx := isComp0(c2.X)
+					ky, oky := isComp0(c2.Y)
+					return okx && oky && ((kx == lower && ky == upper) || (kx == upper && ky == lower))
+				}
+				return false
+			}
+			// the interval is what the function computed itself until a callee gets the address of one of
+			// its ends (the bounds adjustment); from there on every path to the scan passes a test
+			var ends []ssa.Value
+			for _, v := range []ssa.Value{bo.Y} {
+				if ld, ok := stripConv(v).(*ssa.UnOp); ok {
+					if ia, ok := ld.X.(*ssa.IndexAddr); ok {
+						ends = append(ends, ia.X)
+					}
+				}
+			}
+			for _, e := range phi.Edges {
+				if ld, ok := stripConv(e).(*ssa.UnOp); ok {
+					if ia, ok := ld.X.(*ssa.IndexAddr); ok {
+						ends = append(ends, ia.X)
+					}
+				}
+			}
+			guarded := true
+			for _, c := range calls(f) {
+				takes := false
+				for _, a := range c.Common().Args {
+					for _, e := range ends {
+						if a == e {
+							takes = true
+						}
+					}
+				}
+				if !takes {
+					continue
+				}
+				if p := findPath(f, c, isGuard, func(x ssa.Instruction) bool { return x.Block() == phi.Block() }, allEdges); p != nil {
+					guarded = false
+				}
+			}
+			r.check(guarded, fmt.Sprintf("%s:x-scan#%d:entered-with-non-empty-interval", fname(f), n), "lower[0] is tested against upper[0] before the scan",
+				"the scan along x does its first step before it tests the upper bound, and nothing tests the interval before the scan: when exact bounds leave nothing of the block (lower > upper) one voxel per row is emitted outside the bounds", w.pos(bo.Pos()))
+		}
+	}
+	r.check(n >= 1, "labels:do-while-x-scans", fmt.Sprintf("%d", n), "none found: rule needs review", "-")
+}
